@@ -147,6 +147,20 @@ def check(scn, hist):
                     if not supported:
                         out.append(V(PROP, 'connect_raised', m, oid, '%s: %s' % (rec['exc'], rec['exc_msg'])))
                     continue
+                if rec['open_attempts'] and not rec['opened'] and b['port'] is None:
+                    # the port could not be opened (refused, busy, gone): False, with an error recorded
+                    if rec['ret'] is not False or a['err'] is None:
+                        out.append(V(PROP, 'connect_not_false', m, oid,
+                                     'the port %r could not be opened, connect() returned %r, err=%r'
+                                     % (rec['open_attempts'][0], rec['ret'], a['err'])))
+                    continue
+                if rec['ret'] is True and a['err'] is None and b['port'] is not None and not b['port_open']:
+                    # "already connected" may only be answered for a port that is in fact still open: otherwise
+                    # True is returned for a board that has not identified itself
+                    out.append(V(PROP, 'connect_true_unidentified', m, oid,
+                                 'connect() returned True without any handshake although the object only held a '
+                                 'closed port (%r)' % (b['port'],)))
+                    continue
                 if rec['ret'] is True and a['err'] is None and not supported:
                     out.append(V(PROP, 'connect_true_unsupported', m, oid,
                                  'connect() returned True with no error for %r' % (_descr(spec),)))
@@ -452,6 +466,8 @@ def make_devices(rng, n, style, MIN):
                 spec['answer'] = rng.choice(NON_EBB_LINES)
         if rng.random() < 0.06:
             spec['open_fails'] = True
+            if rng.random() < 0.5:
+                spec['open_errno'] = rng.choice([16, 13, 2])        # EBUSY, EACCES, ENOENT
         if rng.random() < 0.05:
             spec['plugged'] = False
         boards.append(spec)
@@ -664,8 +680,8 @@ def sweep_cells(tier):
     cells = [['order_legacy', i] for i in range(len(ORDER_FW))]
     cells += [['order_e3', i] for i in range(len(ORDER_FW))]
     cells += [['gates', i] for i in range(len(ORDER_FW))]
-    kinds = ['old', 'min', 'min-1', 'multi', 'foreign', 'silent', 'open_fails', 'absent', 'v2_99', 'short2', 'short1',
-             'short_ok']
+    kinds = ['old', 'min', 'min-1', 'multi', 'foreign', 'silent', 'open_fails', 'open_busy', 'open_denied', 'absent',
+             'v2_99', 'short2', 'short1', 'short_ok']
     cells += [['connect', k] for k in kinds]
     cells += [['swap_gate', i] for i in range(len(SWAP_PAIRS))]
     cells += [['two_ports', i] for i in range(len(SWAP_PAIRS))]
@@ -865,6 +881,9 @@ def sweep_expand(cell):
         spec['hwid'] = 'USB VID:PID=04D8:FD92 LOCATION=2-1'
     elif kind == 'open_fails':
         spec['open_fails'] = True
+    elif kind in ('open_busy', 'open_denied'):
+        spec['open_fails'] = True
+        spec['open_errno'] = 16 if kind == 'open_busy' else 13
     elif kind == 'absent':
         spec['plugged'] = False
     world = {'boards': [spec]}
